@@ -697,7 +697,7 @@ def write_markdown(records):
         for r in rows:
             lines.append(b"| " + b" | ".join(c.replace(b"|", b"\\|") for c in r) + b" |")
         out.append(b"\n".join(lines) + b"\n")
-    return b"".join(out)
+    return b"\n".join(out)     # a new table (schema change) is separated by an empty line
 
 
 _MD_SPLIT = re.compile(rb"(?<!\\)\|")
